@@ -137,31 +137,34 @@ func (w *dnsWorld) env(name string, f func()) {
 	verifsim.Go("env-"+name, func() { f(); w.envTasks-- })
 }
 
-// settle runs until cond holds and nothing is runnable any more (bounded).
+// settle runs until cond holds. (Quiesce is not used while the oracles need the
+// per-step cache observation: it does not run the invariant hook.)
 func (w *dnsWorld) settle(cond func() bool, maxQ int) bool {
-	for i := 0; i < 8; i++ {
-		ok := w.s.RunUntil(cond, maxQ)
-		if w.s.Failed() {
-			return false
-		}
-		w.s.Quiesce(func() bool { return true }, 0, 0)
-		if ok && cond() {
-			return true
-		}
-		if !ok {
-			return false
-		}
+	ok := w.s.RunUntil(cond, maxQ)
+	if w.track != nil {
+		w.track.scan()
 	}
-	return cond()
+	return ok && !w.s.Failed()
 }
 
-// idle lets simulated time pass (timers, janitor and workers run; no upstream reactions).
+// idle lets exactly d of simulated time pass: a sleeper task bounds the jump, the
+// scheduler keeps running timers, janitor, workers, deliveries and upstream reactions.
 func (w *dnsWorld) idle(d time.Duration) {
 	if d <= 0 {
 		return
 	}
 	w.s.Notef("idle for %v", d)
-	w.s.Quiesce(func() bool { return false }, 0, d)
+	// the sleeper's timer makes the scheduler's time step end exactly at the target;
+	// the loop stops there, before the (now runnable) sleeper or anything else runs
+	target := w.s.Now() + d
+	verifsim.Go("sleeper", func() {
+		time.Sleep(d)
+		verifsim.YieldB("sleeper-woke")
+	})
+	w.s.RunUntil(func() bool { return w.s.Now() >= target }, 10)
+	if w.track != nil {
+		w.track.scan()
+	}
 }
 
 func (w *dnsWorld) shutdown() {
